@@ -202,6 +202,129 @@ CHECKS = {
         design_ref="DESIGN.md section 4/C10"),
 }
 
+
+CHECKS.update({
+    "C08": dict(
+        level="model_checking",
+        technique="TLA+ specs de/Strategy.tla (ten mutation strategies with explicit random draws), solver/DE.tla (generation loop, "
+                  "strict greedy selection, in-place DE vs frozen-generation DE2), solver/NMExact.tla (concrete Nelder-Mead on "
+                  "dyadic rationals), solver/NM.tla (+Trace_NM) and solver/Powell.tla (+Trace_Powell) model-checked by TLC; every "
+                  "TLC-emitted strategy case and DE / Nelder-Mead behaviour is replayed on the real strategy functions and solver "
+                  "classes (spec->code, bit for bit), and recorded float runs of Nelder-Mead and Powell are validated per "
+                  "iteration by TLC against the trace specs (code->spec)",
+        text="DE: every case of Strategy.tla (NP 4..6, nDim 1..3, all ten strategies, every distinct donor tuple, start index, "
+             "crossover draw pattern, F in {1/2,1}; 113k cases quick) is run through the real strategy with a scripted random "
+             "module on both solver classes: trial vector, draw order, pool and number of draws must equal the specification's; "
+             "25k behaviours of DE.tla (cost tables with ties, trial rules per Step) are replayed on DifferentialEvolutionSolver "
+             "and DifferentialEvolutionSolver2 comparing population, energies and best after every Step (a member is replaced only "
+             "by a strictly better trial; 1200 scripts on which DE and DE2 must differ).  Nelder-Mead: every behaviour of "
+             "NMExact.tla (start point x abs/quadratic/plateau cost x radius x standard/adaptive coefficients x tolerances, "
+             "dims 1,2,4) is replayed Step by Step, through Solve() and through fmin and must agree bit for bit in simplex, "
+             "energies, iteration and evaluation counts and stop verdict.  Where built (see evidence extra), float runs of "
+             "Nelder-Mead / Powell are explained iteration by iteration by the decision tree of NM.tla and the outer loop of "
+             "Powell.tla (extrapolation test, direction replacement, bookkeeping), the Brent line search being the given one.",
+        note="trusted: TLC, the transcription of the published algorithms (Storn-Price crossover rules, Nelder-Mead coefficients "
+             "1, 2, 1/2, 1/2 and adaptive variant, Powell's direction-set loop) into the specs, exact IEEE arithmetic on the "
+             "dyadic lattices used; the floating-point interior of the Brent line search is outside the technique (treated as "
+             "the given line search, as the statement words it); two known findings (Bin strategies that use the exponential "
+             "loop; exponential run that may be empty) are listed in known_findings.jsonl and keyed per strategy",
+        design_ref="DESIGN.md section 4/C08"),
+    "C09": dict(
+        level="model_checking",
+        technique="TLA+ specs solver/Ensemble.tla (members, a map completing work items one at a time in any order, reduction to the "
+                  "last minimal member, evaluation accounting) and solver/Grid.tla (gridpts order, lattice cell centres, generator "
+                  "post-conditions) model-checked by TLC; every complete behaviour TLC emits is replayed on real Lattice/Buckshot "
+                  "ensembles with scripted members under a map executing the emitted completion orders (spec->code), and recorded "
+                  "real ensemble solves are validated by TLC against solver/Trace_Ensemble.tla (code->spec)",
+        text="Design: for <=4 members with tied energies, solve and step mode and every completion order of every map call TLC "
+             "checks best = min, best is that member's solution (tie rule), total = sum of member evaluations = real calls, "
+             "member count, schedule independence; the design reducing in completion order is refuted.  Implementation: every "
+             "emitted behaviour (member programs x mode x completion orders) replayed on a real ensemble comparing bestEnergy, "
+             "bestSolution, selected member, _all_bestEnergy, _all_evals, _total_evals and the real call count after every call; "
+             "every Grid case (dims 1-3(4), 1..3 bins per dimension, negative/degenerate bounds) against gridpts and "
+             "LatticeSolver._InitialPoints exactly; real lattice/buckshot/sparsity solves (class API and wrappers; NM/Powell/DE "
+             "members; strict ranges, constraints, penalty, limits, terminations; serial/python_map/reversed/shuffled/thread-pool "
+             "maps; Solve vs step mode) recorded with one event per completed work item and validated by TLC (8k traces quick); "
+             "randomly_bin/samplepts/fillpts/random_samples outputs judged by TLC against the Grid post-conditions.",
+        note="trusted: TLC, the recorder (cost owned by the harness, calls attributed to the member whose work item the calling "
+             "thread executes), energies as order-preserving ranks; lattice bounds are multiples of 0.75 so cell centres are "
+             "exact; nested solver given as a class (a pre-configured instance is documented to be used as is); process-based "
+             "maps not available in the sandbox",
+        design_ref="DESIGN.md section 4/C09"),
+    "C12": dict(
+        level="exploration",
+        technique="TLA+ spec sym/SymClass.tla defines the bounded program class (linear and single-factor rational systems, their "
+                  "equivalence rewrites, matrices, bounds) and its denotation Sol on a grid; TLC model-checks 'an equivalence "
+                  "rewrite preserves Sol' and emits every program with its solution set; each is passed to the real "
+                  "simplify/solve/linear_symbolic/symbolic_bounds and the returned text is evaluated by an independent exact "
+                  "interpreter at every grid point (spec as enumerator and oracle; exhaustive on the bounded class)",
+        text="One- and two-line systems over <=3 variables, coefficients in {-2..2} plus fractions and large/small magnitudes, "
+             "all comparators, forms a*xi/xj, k/xj, a*xi*xj against affine right-hand sides, six variable-name schemes (x0.., "
+             "x1/x10, a/b/c, spam/eggs/am, 12 letters, y) and three writing styles; matrices for linear_symbolic, consistent "
+             "equality systems for solve, boxes for symbolic_bounds.  For every program the union of the cases simplify(all=True) "
+             "returns (each with its sign conditions) must hold at exactly the grid points where the input holds (13x13 / 7x7x7 "
+             "half-integer grids, points where the input is undefined excluded); simplify(all=False) must be one of those "
+             "cases.  Quick: ~4.9k programs chosen by seed; thorough: the whole class.",
+        note="trusted: TLC, the rendering of program records as text, the harness interpreter (python ast whitelisted to "
+             "arithmetic and one comparison per line, exact Fractions; decimal literals read as the nearest small rational "
+             "within 1e-12); exceptions/timeouts are counted as refused, never as violations (the property is conditional); "
+             "known findings (zero case of an introduced variable factor dropped; products compared with 0; variable-free false "
+             "lines; k/x = 0) are listed per input class in known_findings.jsonl; weakest fit of the technique: the "
+             "implementation is stateless sympy-backed rewriting, TLC contributes enumeration and the oracle",
+        design_ref="DESIGN.md section 4/C12"),
+    "C13": dict(
+        level="exploration",
+        technique="TLA+ spec sym/LinRel.tla gives the compile semantics of isolated-form relations (allowed outputs: relation holds, "
+                  "strictly for strict comparators; only x_i may change; feasible input unchanged) and of the box constraint; TLC "
+                  "checks its lemmas (ScaleLemma, independence of lines) and emits every (system, input point, allowed "
+                  "observation); each is replayed on the real generate_constraint(generate_solvers(text)) and boundsconstrain",
+        text="Relations x_i op rhs for the six comparators incl. !=, right-hand sides constant / other variable / affine / "
+             "nonlinear catalogue, 1-3 independent lines, boxes lo<=hi incl. unbounded and degenerate sides (symbolic and "
+             "impose_bounds paths), every integer input point of the grid incl. exact boundary points, huge magnitudes (2^40, "
+             "2^60) for degree-one systems, variable-name schemes incl. >=10 variables (x1 vs x10), named variables that are "
+             "substrings of each other or of function names, inputs as list of float / list of int / ndarray: 133k cases quick. "
+             "Compared: set of changed coordinates, relation holds weakly/strictly, feasible input returned unchanged, box "
+             "clipping exact and identity inside.",
+        note="trusted: TLC, rendering of relation records as text (harness/linrel_common.py, guarded by re-evaluating the "
+             "rendered text), exact IEEE arithmetic on integer inputs; feasible inputs closer to the boundary than the "
+             "documented tolerance 1e-15*(1+|rhs|) are outside the class",
+        design_ref="DESIGN.md section 4/C13"),
+    "C14": dict(
+        level="exploration",
+        technique="TLA+ spec sym/LinRel.tla gives the condition semantics (lhs - rhs oriented so that <= 0 means satisfied, "
+                  "equalities 0) and the penalty as the documented sum of per-line terms; TLC emits every (constraint text, "
+                  "evaluation point) with exact condition values and penalties; each is replayed on the real "
+                  "generate_conditions / generate_penalty, and penalty(constraint(x)) = 0 is checked with C13's functions",
+        text="1-3 lines m*x_i op rhs, six comparators, multipliers incl. negative, rhs affine/nonlinear catalogue; four penalty "
+             "families (quadratic, linear, uniform, lagrange at iteration 0) x three multipliers k; integer evaluation points "
+             "incl. exact boundaries, scales 2^40/2^60 for degree-one texts; rotating variable-name schemes (indexed, named, >=10 "
+             "variables, substrings), extra locals (tol/rel) in default and dyadic mode: 65k cases quick.  Compared exactly: "
+             "sign and value of every condition, equality/inequality classification, penalty zero exactly on the feasible set, "
+             "positive elsewhere and equal to the documented sum; applying the generated constraint drives the penalty to zero.",
+        note="trusted: TLC, the text rendering, exact IEEE arithmetic on integers; strict comparators: with the default locals the "
+             "value must have the right sign and lie within 2*tolerance(rhs) of lhs-rhs (documented 1e-15 term); "
+             "barrier_inequality is left to C15 (not zero on the feasible set by its own documentation)",
+        design_ref="DESIGN.md section 4/C14"),
+    "C18": dict(
+        level="exploration",
+        technique="TLA+ spec math/Moments.tla gives the textbook definitions in exact rational arithmetic and the post-conditions of "
+                  "the impose_* transforms (target reached, promised quantities kept, designated weights zero) as a state "
+                  "machine over (samples, weights); TLC enumerates every state and short transform sequence of the bounded class "
+                  "and emits the exact values; each is replayed on the real mystic.math.measures functions",
+        text="Every (samples, weights) with samples of length 1-3 (thorough 4) over small integers and weights over {0..3} (not "
+             "all zero), as list and ndarray, weights=None on all-ones states: mean, variance, std, moments, spread, expectation, "
+             "ess-extrema, norms, median/MAD and trimmed/winsorised variants against TLC's rationals; impose_mean/variance/std/"
+             "moment/spread/sum/product/median/mad/expectation-free transforms, impose_support/unweighted/collapse over every "
+             "index and pair selection: target reached, promised moments and total weight kept, designated weights zero; "
+             "every emitted sequence of <=2 transform calls: 617k cases quick.",
+        note="trusted: TLC, the transcription of the definitions (roots compared in squared/cubed form), the harness's exact "
+             "Fraction instruments calibrated against TLC on every state; floats compared at abs 1e-12 + rel 1e-9 (stated, "
+             "fixed); this decides definition conformance on exact small inputs, not numerical accuracy on ill-conditioned "
+             "data; optimizer-based impose_reweighted_*/impose_expectation are not transcribed; degenerate premises (zero "
+             "variance when a variance is imposed) excluded",
+        design_ref="DESIGN.md section 4/C18"),
+})
+
 PENDING = {}
 for _i in range(1, 21):
     _id = "C%02d" % _i
